@@ -328,7 +328,11 @@ func Discharge(results []*FnResult, opts DischargeOpts) (stats map[string]int, s
 			if stage1 < 4*time.Second {
 				stage1 = 4 * time.Second
 			}
-			r := Race(path, stage1, []SolverSpec{solvers[0], solvers[len(solvers)-1]})
+			// (one process per worker in the first two stages: the machine is not oversubscribed)
+			r := Race(path, stage1, solvers[:1])
+			if r.Status != "sat" && r.Status != "unsat" {
+				r = Race(path, stage1, solvers[len(solvers)-1:])
+			}
 			if r.Status != "sat" && r.Status != "unsat" {
 				r = Race(path, full, solvers)
 			}
